@@ -315,6 +315,17 @@ class TupleNM(Hooks, NodeMixin, tuple):
         return "TupleNM(%s)" % (self.name,)
 
 
+class BareNM(Hooks, NodeMixin):
+    """A node class without a ``name`` attribute (diagnostics must not assume one)."""
+
+    def __init__(self, label, key=0):
+        self.label = label
+        self.key = key
+
+    def __repr__(self):
+        return "BareNM(%r)" % (self.label,)
+
+
 class FalsyLM(Hooks, LightNodeMixin):
     """Always falsy, also as a parent that has children."""
 
